@@ -56,21 +56,32 @@ def judge_doc(case):
         raw = encoded(text, case['enc'])      # declared ISO-8859-1 / UTF-16 bytes
     with open(path, 'wb') as f:
         f.write(raw)
+    text_str = text
+    if case.get('enc') and case.get('str_decl'):
+        # the str a caller gets from open(path, encoding=...).read(): it still carries the declaration
+        from checks.c08 import ENCODINGS
+        body = text[text.index('?>') + 2:] if text.startswith('<?xml') else text
+        text_str = f'<?xml version="1.0" encoding="{ENCODINGS[case["enc"]][0]}"?>' + body
     s3key = case.get('s3key', 'k/d.mos.xml')
     # decoys under the names a URL-decoding / normalising client would ask for instead
     from urllib.parse import unquote, unquote_plus
     objs = {k: b'<mos><messageID>1</messageID><roDelete><roID>decoy</roID></roDelete></mos>'
             for k in {unquote(s3key), unquote_plus(s3key), s3key.replace(' ', '+'), s3key.strip()} if k != s3key}
     objs[s3key] = raw
-    fake = fakes3.FakeS3({'b': objs})
+    bucket = case.get('bucket', 'b')
+    # decoy buckets under the names a prefix-stripping client would ask for instead
+    decoy = {k: b'<mos><messageID>1</messageID><roDelete><roID>decoy</roID></roDelete></mos>' for k in objs}
+    buckets = {n: dict(decoy) for n in {bucket.lstrip('s3:/'), bucket[1:], bucket.lower(), 'b'} if n and n != bucket}
+    buckets[bucket] = objs
+    fake = fakes3.FakeS3(buckets)
     with warnings.catch_warnings():
         warnings.simplefilter('ignore')
-        for name, fn in (('str', lambda: MosFile.from_string(text)),
+        for name, fn in (('str', lambda: MosFile.from_string(text_str)),
                          ('bytes', lambda: MosFile.from_string(raw)),
                          ('file', lambda: MosFile.from_file(path)),
                          ('file:pathlib', lambda: MosFile.from_file(__import__('pathlib').Path(path))),
                          ('bytearray', lambda: MosFile.from_string(bytearray(raw))),
-                         ('s3', lambda: MosFile.from_s3('b', s3key))):
+                         ('s3', lambda: MosFile.from_s3(bucket, s3key))):
             try:
                 with fake:
                     mo = fn()
@@ -91,8 +102,8 @@ def judge_doc(case):
             if outs['str'][0].startswith('EA'):
                 entry.append(mt.ElementAction)
             for cls in entry:
-                for name, fn in (('str', lambda: cls.from_string(text)), ('bytes', lambda: cls.from_string(raw)),
-                                 ('file', lambda: cls.from_file(path)), ('s3', lambda: cls.from_s3('b', s3key))):
+                for name, fn in (('str', lambda: cls.from_string(text_str)), ('bytes', lambda: cls.from_string(raw)),
+                                 ('file', lambda: cls.from_file(path)), ('s3', lambda: cls.from_s3(bucket, s3key))):
                     try:
                         with fake:
                             mo = fn()
@@ -106,9 +117,9 @@ def judge_doc(case):
                                              f'MosFile.from_string gives {outs["str"][0]}', outs['str'], got))
         # readers
         if not outs['str'][0].startswith('EXC'):
-            for name, mk in (('string', lambda: MosReader.from_string(text)),
+            for name, mk in (('string', lambda: MosReader.from_string(text_str)),
                              ('file', lambda: MosReader.from_file(path)),
-                             ('s3', lambda: MosReader.from_s3('b', s3key))):
+                             ('s3', lambda: MosReader.from_s3(bucket, s3key))):
                 try:
                     with fake:
                         mr = mk()
@@ -264,7 +275,8 @@ def documents(draw):
         from vlib import build as B_
         text = B_.cdataize(text)           # escaped text written as CDATA sections
     s3key = draw(st.sampled_from(['k/d.mos.xml'] * 3 + S3_KEYS))
-    return {'doc': decl + text, 'decl': bool(decl), 'enc': enc, 's3key': s3key}
+    return {'doc': decl + text, 'decl': bool(decl), 'enc': enc, 's3key': s3key, 'str_decl': draw(st.booleans()),
+            'bucket': draw(st.sampled_from(['b', 'b', 'sport-mos-archive', '3sixty-mos', 's3', 'B.ucket_1']))}
 
 
 def shard(args):
